@@ -49,9 +49,21 @@ PipelineEv ==
 ReproEv == /\ Rec[l].ev = "Repro" /\ UNCHANGED <<exp, net, first>>
            /\ bad' = IF Rec[l].first # Rec[l].second THEN Flag("repro", [where |-> Rec[l].where]) ELSE bad
 
+\* C06 through the facade: supplying the arguments in several calls leaves the template that one call leaves, and none
+\* of the supplied parameters is still waited for
+FacadeEv == /\ Rec[l].ev = "Facade" /\ UNCHANGED <<exp, net, first>>
+            /\ LET e == Rec[l] IN
+               bad' = IF e.outcome = "panic" THEN Flag("panic", [site |-> "facade", msg |-> e.msg, stage |-> "facade"])
+                      ELSE IF e.residual_single # <<>> THEN Flag("facade-residual", [calls |-> "one", names |-> e.residual_single])
+                      ELSE IF e.residual_two_calls # <<>> THEN Flag("facade-residual", [calls |-> "two", names |-> e.residual_two_calls])
+                      ELSE IF e.residual_one_by_one # <<>> THEN Flag("facade-residual", [calls |-> "one-by-one", names |-> e.residual_one_by_one])
+                      ELSE IF ~e.two_calls_same THEN Flag("facade-history", [calls |-> "two"])
+                      ELSE IF ~e.one_by_one_same THEN Flag("facade-history", [calls |-> "one-by-one"])
+                      ELSE bad
+
 Next == /\ l <= Len(Rec)
         /\ l' = l + 1
-        /\ (Reset \/ CaseEv \/ PipelineEv \/ ReproEv)
+        /\ (Reset \/ CaseEv \/ PipelineEv \/ ReproEv \/ FacadeEv)
 
 Done == l = Len(Rec) + 1
 Report == Done => PrintT(<<"VERDICT", ToJson([n |-> Len(Rec), bad |-> bad])>>)
